@@ -240,6 +240,55 @@ func runC14(c *Ctx) {
 		return
 	}
 
+	// ---- part "dollar": topic names beginning with '$' (system topics).  Section 4.7.2 exempts them
+	// from filters whose first level is a wildcard and the statement is silent about it, so those pairs
+	// are left out; for every other pair '$' is an ordinary character of a literal level.
+	{
+		maxD := 5
+		if c.Thorough() {
+			maxD = 6
+		}
+		c.Bound("dollar", fmt.Sprintf("filters over {$,a,+,#,/} of length 1..%d x topics over {$,a,/} of length 1..%d that begin with '$'; pairs whose filter begins with a wildcard level are not judged", maxD, maxD))
+		var dtopics []string
+		c14Strings("$a/", 1, maxD, func(s string) bool {
+			if s[0] == '$' {
+				dtopics = append(dtopics, s)
+			}
+			return true
+		})
+		var didx, dpairs int64
+		c14Strings("$a+#/", 1, maxD, func(f string) bool {
+			didx++
+			if !c.Mine(didx) || c14RefValid(f) != "" {
+				return true
+			}
+			if f[0] == '+' || f[0] == '#' {
+				return true
+			}
+			tf, err, pv := c14SafeNew(f)
+			if pv != "" || err != nil {
+				c.EnumFail("dollar", "rejected-valid", fmt.Sprintf("filter %q is valid per MQTT 4.7 but was rejected: %v %s", f, err, pv), map[string]any{"filter": f})
+				return true
+			}
+			for _, t := range dtopics {
+				want := c14Matches(f, t)
+				got, pm := c14SafeMatch(tf, t)
+				dpairs++
+				if want {
+					c.Res.Distinct++
+				}
+				if pm != "" {
+					c.EnumFail("dollar", "panic/Match", fmt.Sprintf("filter %q Match(%q) panicked: %s", f, t, pm), map[string]any{"filter": f, "topic": t})
+				} else if got != want {
+					c.EnumFail("dollar", fmt.Sprintf("dollar-topic/got-%v", got), fmt.Sprintf("filter %q topic %q: library Match=%v, level-wise rules say %v", f, t, got, want), map[string]any{"filter": f, "topic": t})
+				}
+			}
+			return true
+		})
+		c.Res.Evaluations += dpairs
+		c.Res.Parts["dollar_topic_pairs"] = dpairs
+	}
+
 	// ---- part "mux"
 	poolWhy := make([]string, len(c14Pool))
 	for i, f := range c14Pool {
